@@ -162,6 +162,12 @@ func main() {
 		os.MkdirAll(outRoot, 0o755)
 	}
 
+	if o := os.Getenv("VERIF_OUT"); o != "" && modfile == "" {
+		// seed sweeps on the unchanged tree: keep the committed evidence untouched
+		outRoot = o
+		os.MkdirAll(outRoot, 0o755)
+	}
+
 	code := 2
 	func() {
 		defer os.RemoveAll(buildDir)
